@@ -32,7 +32,7 @@ Section C18.
   (* Start returns after exactly one startWg.Done per provider (safety half): whenever Start has returned, in
      every schedule, the start counter is 0 and every provider has signalled exactly once. *)
   Theorem C18_start_returns_after_one_done_each kinds w0 s :
-    (0 <= w0)%Z -> reachable kinds w0 s -> after_start (s_caller s) = true ->
+    (0 <= w0)%Z -> reachable kinds w0 s -> after_start (s_start s) = true ->
     s_startwg s = 0%Z /\
     forall j p, nth_error (s_provs s) j = Some p -> p_sdone p = 1 /\ pre_signal (p_pc p) = false.
   Proof. exact (start_returned_safe serve_ret drain_ret kinds w0 s). Qed.
@@ -41,17 +41,17 @@ Section C18.
      Start, every run of the server's own steps is no longer than the measure, and once no such step is
      enabled Start has returned.  (Termination + stuck-freedom = every maximal run returns.) *)
   Theorem C18_start_returns kinds w0 s ls s' :
-    (0 <= w0)%Z -> reachable kinds w0 s -> in_start (s_caller s) = true ->
+    (0 <= w0)%Z -> reachable kinds w0 s -> in_start (s_start s) = true ->
     progress_run ls -> run ls s = Some s' ->
-    length ls <= measure s /\ (~ enabled serve_ret drain_ret s' -> s_caller s' = CRunning).
+    length ls <= measure s /\ (~ enabled serve_ret drain_ret s' -> s_start s' = CRunning).
   Proof. exact (start_terminates serve_ret drain_ret kinds w0 s ls s'). Qed.
 
   (* Stop is complete (safety half): whenever Stop has returned, in every schedule (Stop called at any moment
-     after Start returned, e.g. before a provider goroutine entered its serve loop; any number of requests;
+     once Start has launched every provider - while Start still waits for their signals, or after it returned, e.g. before a provider goroutine entered its serve loop; any number of requests;
      context expired or not): every provider goroutine has returned, no listening socket is open, every
      library server was shut down, and the caller's WaitGroup counter is back to its value before Start. *)
   Theorem C18_stop_complete kinds w0 s :
-    (0 <= w0)%Z -> reachable kinds w0 s -> s_caller s = CStopped ->
+    (0 <= w0)%Z -> reachable kinds w0 s -> s_stop s = CStopped ->
     s_stopwg s = w0 /\
     forall j p, nth_error (s_provs s) j = Some p ->
       p_pc p = GDone /\ p_bound p = false /\ p_shut p = true /\ p_sdone p = 1.
@@ -61,7 +61,7 @@ Section C18.
      in every reachable state inside Stop either some step of the server is enabled, or Stop is waiting
      for a request in flight while its context has not ended. *)
   Theorem C18_stop_progress kinds s :
-    L1 -> L3 -> reachable kinds 0%Z s -> in_stop (s_caller s) = true ->
+    L1 -> L3 -> reachable kinds 0%Z s -> in_stop (s_stop s) = true ->
     enabled serve_ret drain_ret s \/ blocked_on_inflight s.
   Proof.
     intros H1 H3 Hr Hc. apply (stop_not_stuck serve_ret drain_ret H1 H3 kinds s); [|exact Hc].
@@ -72,24 +72,24 @@ Section C18.
      the server's own steps and of requests finishing is no longer than the measure, and when nothing of
      that is enabled any more (or the context has ended) Stop has returned. *)
   Theorem C18_stop_returns kinds s ls s' :
-    L1 -> L3 -> reachable kinds 0%Z s -> in_stop (s_caller s) = true ->
+    L1 -> L3 -> reachable kinds 0%Z s -> in_stop (s_stop s) = true ->
     progress_run ls -> run ls s = Some s' ->
     length ls <= measure s /\
     (~ enabled serve_ret drain_ret s' ->
-     (forall i, step (LReqEnd i) s' = None) \/ s_ctx s' = true -> s_caller s' = CStopped).
+     (forall i, step (LReqEnd i) s' = None) \/ s_ctx s' = true -> s_stop s' = CStopped).
   Proof. intros H1 H3. exact (stop_terminates serve_ret drain_ret H1 H3 kinds s ls s'). Qed.
 
   (* Stop waits for requests in flight (under L3c: Shutdown / GracefulStop return only when drained or the
      context ended): if Stop returned and its context had not ended, no request is in flight anywhere. *)
   Theorem C18_stop_waits_for_inflight kinds w0 s :
-    L1c -> L3c -> (0 <= w0)%Z -> reachable kinds w0 s -> s_caller s = CStopped -> s_ctx s = false ->
+    L1c -> L3c -> (0 <= w0)%Z -> reachable kinds w0 s -> s_stop s = CStopped -> s_ctx s = false ->
     forall j p, nth_error (s_provs s) j = Some p -> p_inflight p = 0.
   Proof. intros H1 H3. exact (stop_waited_for_inflight serve_ret drain_ret H1 H3 kinds w0 s). Qed.
 
   (* Every listener comes up (under L1c: no listen failure): Start returned, Stop not called, nothing left to
      do => every provider is inside its serve loop with its socket open. *)
   Theorem C18_listeners_up kinds w0 s :
-    L1c -> L3c -> (0 <= w0)%Z -> reachable kinds w0 s -> s_caller s = CRunning ->
+    L1c -> L3c -> (0 <= w0)%Z -> reachable kinds w0 s -> s_start s = CRunning -> s_stop s = TIdle ->
     (forall l, is_env l = false -> step l s = None) ->
     forall j p, nth_error (s_provs s) j = Some p -> p_pc p = GServing /\ p_bound p = true.
   Proof. intros H1 H3. exact (listeners_up serve_ret drain_ret H1 H3 kinds w0 s). Qed.
@@ -115,8 +115,34 @@ Definition immediate_stop_schedule : list label :=
    LServe 0; LServe 1; LDone 0; LDone 1; LStopReturn].
 Example C18_ex_immediate_stop :
   match run lib_serve_ret lib_drain_ret immediate_stop_schedule (init [KHttp; KGrpc] 0) with
-  | Some s => s_caller s = CStopped /\ s_stopwg s = 0%Z /\ map p_pc (s_provs s) = [GDone; GDone]
+  | Some s => s_stop s = CStopped /\ s_stopwg s = 0%Z /\ map p_pc (s_provs s) = [GDone; GDone]
               /\ map p_bound (s_provs s) = [false; false]
+  | None => False
+  end.
+Proof. vm_compute. repeat split. Qed.
+
+(* Stop issued while Start is still in progress: both goroutines are launched, the gRPC provider has not even
+   listened yet (Start waits at startWg.Wait()); Stop shuts both library servers down and waits; the gRPC
+   goroutine then listens, signals (Start returns), enters Serve after GracefulStop, closes its listener *)
+Definition stop_during_start_schedule : list label :=
+  [LCallStart; LAddStop; LAddStart; LGo; LAddStop; LAddStart; LGo; LSignal 0; LServe 0;
+   LCallStop; LStopCall; LServeReturn 0; LStopProvReturn; LStopCall; LStopProvReturn; LDone 0;
+   LListen 1; LSignal 1; LStartReturn; LServe 1; LDone 1; LStopReturn].
+Example C18_ex_stop_during_start :
+  match run lib_serve_ret lib_drain_ret stop_during_start_schedule (init [KHttp; KGrpc] 0) with
+  | Some s => s_start s = CRunning /\ s_stop s = CStopped /\ s_stopwg s = 0%Z
+              /\ map p_pc (s_provs s) = [GDone; GDone] /\ map p_bound (s_provs s) = [false; false]
+  | None => False
+  end.
+Proof. vm_compute. repeat split. Qed.
+(* ... and Stop cannot return before that: with the gRPC goroutine not yet run, Stop is at Wait() and stuck *)
+Example C18_ex_stop_during_start_waits :
+  match run lib_serve_ret lib_drain_ret
+          [LCallStart; LAddStop; LAddStart; LGo; LAddStop; LAddStart; LGo; LSignal 0; LServe 0;
+           LCallStop; LStopCall; LServeReturn 0; LStopProvReturn; LStopCall; LStopProvReturn; LDone 0]
+          (init [KHttp; KGrpc] 0) with
+  | Some s => s_start s = CStartWait /\ s_stop s = CStopWait /\ s_stopwg s = 1%Z
+              /\ step lib_serve_ret lib_drain_ret LStopReturn s = None /\ step lib_serve_ret lib_drain_ret LStartReturn s = None
   | None => False
   end.
 Proof. vm_compute. repeat split. Qed.
@@ -129,7 +155,7 @@ Definition graceful_schedule : list label :=
    LStopCall; LReqEnd 1; LCtxExpire; LForce; LStopProvReturn; LServeReturn 1; LDone 1; LStopReturn].
 Example C18_ex_graceful :
   match run lib_serve_ret lib_drain_ret graceful_schedule (init [KHttp; KGrpc] 0) with
-  | Some s => s_caller s = CStopped /\ s_stopwg s = 0%Z /\ map p_inflight (s_provs s) = [0; 0]
+  | Some s => s_stop s = CStopped /\ s_stopwg s = 0%Z /\ map p_inflight (s_provs s) = [0; 0]
   | None => False
   end.
 Proof. vm_compute. repeat split. Qed.
@@ -140,7 +166,7 @@ Example C18_ex_blocked :
           [LCallStart; LAddStop; LAddStart; LGo; LSignal 0; LServe 0; LStartReturn; LReqBegin 0; LCallStop; LStopCall;
            LServeReturn 0; LDone 0]
           (init [KHttp] 0) with
-  | Some s => s_caller s = CStopDrain 0 /\
+  | Some s => s_stop s = CStopDrain 0 /\
               forallb (fun l => match step lib_serve_ret lib_drain_ret l s with None => true | Some _ => false end)
                       (internal_labels 1) = true
   | None => False
